@@ -274,6 +274,18 @@ func richEdits(r *hx.R, e *specs.ContainerEdits, tag string) {
 	if r.Chance(0.6) {
 		e.Hooks = append(e.Hooks, &specs.Hook{HookName: hx.Pick(r, []string{"prestart", "createRuntime", "poststop"}), Path: "/bin/hook-" + tag})
 	}
+	if r.Chance(0.35) {
+		// a hook equal in every field to one that other edit lists carry too (and now and then twice in this one):
+		// injection composes lists, it does not merge equal elements
+		h := specs.Hook{HookName: "createContainer", Path: "/usr/bin/update-ldcache", Args: []string{"update-ldcache", hx.Pick(r, []string{"--all", "--fast"})}}
+		for i, n := 0, 1+r.Intn(4)/3; i < n; i++ {
+			hc := h
+			e.Hooks = append(e.Hooks, &hc)
+		}
+	}
+	if r.Chance(0.15) {
+		e.Mounts = append(e.Mounts, &specs.Mount{HostPath: "/host/shared", ContainerPath: "/mnt/shared", Options: []string{"ro"}})
+	}
 	if r.Chance(0.5) {
 		e.Mounts = append(e.Mounts, &specs.Mount{HostPath: "/host/" + tag, ContainerPath: hx.Pick(r, []string{"/mnt/a", "/mnt/a/b", "/mnt/c", "/data"}), Options: []string{"ro"}})
 	}
@@ -619,6 +631,26 @@ func settle(c *cdi.Cache, dirs []string, probes []string, deadline time.Duration
 	}
 }
 
+
+// settleQuiet: like settle, but the cache is only queried, never asked to refresh, until it answers like a cache freshly
+// built on the directories (or the deadline passes): what is observed is what automatic refresh alone achieved.  Once
+// converged, one explicit Refresh supplies the refresh verdict.
+func settleQuiet(c *cdi.Cache, dirs []string, probes []string, deadline time.Duration, wantDirErrs []string) cacheObs {
+	ref, _ := cdi.NewCache(cdi.WithSpecDirs(dirs...), cdi.WithAutoRefresh(false))
+	want := observeCache(ref, probes, true)
+	end := time.Now().Add(deadline)
+	for {
+		got := observeCache(c, probes, false)
+		got.RefErr = want.RefErr
+		if got.key() == want.key() && fmt.Sprint(got.DirErrs) == fmt.Sprint(wantDirErrs) {
+			return observeCache(c, probes, true)
+		}
+		if time.Now().After(end) {
+			return got
+		}
+		time.Sleep(5 * time.Millisecond)
+	}
+}
 
 // missingDirs: the configured directories that do not exist (sorted, without repetitions): what an automatic-refresh cache
 // reports as directory errors.
